@@ -97,7 +97,7 @@ def run_c19(case):
         shutil.rmtree(d, ignore_errors=True)
 
 def _c20_begin2():
-    return {"scenario_managers": ["sm"], "scenarios": ["base"], "equations": ["s"]}
+    return {"scenario_managers": ["sm"] + (["sm2"] if TWO[0] else []), "scenarios": ["base"], "equations": ["s"]}
 
 def _c20_prehistory(case, cl, uu):
     # an earlier session of the same instance with other equations, m steps long, saved at the same clock positions
@@ -108,6 +108,7 @@ def _c20_prehistory(case, cl, uu):
 
 def _c20_setup(case):
     SM[0] = "sm"
+    TWO[0] = bool(case.get("two"))
     RUNSPEC[:] = case.get("runspec", [1.0, 10.0, 1.0])
 
 def _c20_reference(case, d_ref):
@@ -225,7 +226,14 @@ def gen20(rnd):
     if not compress and rnd.random() < 0.35:
         # other run specs (uncompressed mode only: the compressed format is known to renumber steps)
         case['runspec'] = rnd.choice([[0.0, 2.0, 0.125], [0.5, 9.5, 1.0], [0.25, 4.75, 0.5], [1.0, 1.06, 0.005]])
+    if rnd.random() < 0.3:
+        case['two'] = True        # the session spans two scenario managers
     return case
+
+
+SCRIPTED20 = [dict(compress=False, kinds=['1.0'] * 4, crash_at=2, torn=None, neighbours=0, resession=0, two=True),
+              dict(compress=True, kinds=['2.0'] * 4, crash_at=1, torn=None, neighbours=1, resession=0, two=True),
+              dict(compress=False, kinds=['1.0'] * 5, crash_at=3, torn=None, neighbours=0, resession=2, two=True)]
 
 
 def known_probes(prop):
@@ -269,7 +277,7 @@ def main():
             case = gen19(rnd)
             fn, tag = 'run_c19', 'history'
         else:
-            case = gen20(rnd)
+            case = SCRIPTED20.pop(0) if SCRIPTED20 else gen20(rnd)
             fn, tag = 'run_c20', 'crash'
         try:
             bad = globals()[fn](case)
